@@ -1403,7 +1403,12 @@ class ComputeGraph(MultiDiGraph):
             if type(n) is ComputeVar:
                 node_names.append(node)
             else:
-                node_names.append(list(self._get_inputs(node))[-1])
+                # lhs-indexing operation `index(var, idx)`: the variable that is written is the FIRST argument of the
+                # index call (the order of the graph predecessors says nothing about which of them is indexed)
+                inputs = list(self._get_inputs(node))
+                args = getattr(getattr(n, 'expr', None), 'args', ())
+                written = str(args[0]) if args else None
+                node_names.append(written if written in inputs else inputs[-1])
             node_keys.append(node)
 
         keys, values, defined_vars, undefined_vars = [], [], [], []
